@@ -565,6 +565,16 @@ def check_C18(hs: History, conns, ex: Expect, ob: Obs):
     if not (1 in conns and conns[1].logger and conns[1].connected and not conns[1].gone):
         return out
     mon = ob.frames.get(1, [])
+    if getattr(hs, "check_final_pids", False):
+        # "... and for every connected module with a non-zero id its process id": the last report of a history that
+        # ends with every pid settled lists exactly the pids the modules last declared (CONNECT_V2 or MODULE_READY)
+        last = [f for f in mon if f["h"]["type"] == MT["TIMING_MESSAGE"] and is_mgr(f) and f["p"]["dec"]]
+        if last:
+            got = {k: v for k, v in dict(last[-1]["p"]["dec"][2]).items() if k != 0}     # (slot 0 is the manager's own)
+            want = {c.mod_id: c.pid for c in conns.values() if c.connected and not c.gone and c.mod_id > 0 and c.pid}
+            if got != want:
+                diff = {k: (got.get(k, 0), want.get(k, 0)) for k in set(got) | set(want) if got.get(k, 0) != want.get(k, 0)}
+                out.append(("timing:pids", f"TIMING_MESSAGE process ids (reported, last declared) differ for module ids {diff}"))
     tcount: Dict[int, int] = {}
     fcount: Dict[int, int] = {}
     seen_since_connect = False
@@ -710,6 +720,8 @@ def gen_monitored(rng: random.Random, flavor: str, nrounds: int = 16) -> History
             my = s["mid"] if s["mid"] > 0 else 0
             if op in ("sub", "unsub", "pause", "resume"):
                 pool = TYPES * 5 + [ALL, MT["FAILED_MESSAGE"], MT["CLIENT_CLOSED"], 5000]
+                if flavor in ("routing", "shared", "acks"):
+                    pool += [9999, 10000, 20000, 20000]      # ids with no definition, beyond the statistics table too
                 tt = rng.choice(pool)
                 if op in ("sub", "resume"):
                     if tt == ALL:
@@ -723,7 +735,7 @@ def gen_monitored(rng: random.Random, flavor: str, nrounds: int = 16) -> History
                         s["sub"].discard(tt)
                 ready.append((c, hs.sub(op, tt, src_mod=my)))
             elif op == "publish":
-                tp = TYPES * 6 + [5000, 9999, 10000, 20000]
+                tp = TYPES * 6 + [5000, 9999, 10000, 20000, 20000]
                 if flavor == "stats":
                     tp = list(range(300, 300 + rng.choice([1, 2, 63, 64, 65, 130]))) + TYPES + [0, 0, 10000] + \
                          [4999, 5000, 5001, 7321, 9998, 9999] * 2      # both halves of the TIMING array
